@@ -13,6 +13,8 @@ import (
 	"github.com/ogen-go/ogen/ogenerrors"
 
 	"verifharness/internal/ev"
+	"verifharness/internal/jsonv"
+	"verifharness/internal/schemaref"
 )
 
 type C03Case struct {
@@ -29,6 +31,12 @@ type C03Family struct {
 	Comps  string    `json:"components,omitempty"`
 	Cases  []C03Case `json:"cases"`
 	Tags   []string  `json:"tags,omitempty"` // recursive-sum
+	// conformance part (C04): all components incl. the root, the same with undeclared required names dropped, root name
+	Root       string `json:"root,omitempty"`
+	All        string `json:"all_components,omitempty"`
+	AllRelaxed string `json:"all_components_relaxed,omitempty"`
+	AllNoCount string `json:"all_components_no_property_counts,omitempty"`
+	AllBoth    string `json:"all_components_relaxed_no_property_counts,omitempty"`
 }
 
 type C03Spec struct {
@@ -38,6 +46,10 @@ type C03Spec struct {
 
 type C03Data struct {
 	Specs []C03Spec `json:"specs"`
+	// Conformance: instead of posting instances, build Go values of the root types by reflection and
+	// check their encoding against the source schema (C04's conformance clause on schema-known types)
+	Conformance bool `json:"conformance,omitempty"`
+	Values      int  `json:"values,omitempty"`
 }
 
 func init() { drivers["c03"] = runC03 }
@@ -88,6 +100,10 @@ func runC03(r *ev.Run, data json.RawMessage) error {
 			emu.Lock()
 			firstErr = fmt.Errorf("package %s not linked", j.spec.Key)
 			emu.Unlock()
+			return
+		}
+		if d.Conformance {
+			c03Conformance(r, pkg, j.spec, j.fam, d.Values, i)
 			return
 		}
 		disp := &c03Disp{}
@@ -199,4 +215,106 @@ func hasTag(tags []string, t string) bool {
 		}
 	}
 	return false
+}
+
+func parseComps(txt string) map[string]*jsonv.Value {
+	out := map[string]*jsonv.Value{}
+	v, err := jsonv.Parse([]byte(txt))
+	if err != nil || v.Kind != jsonv.Object {
+		return out
+	}
+	for _, m := range v.Members {
+		out[m.Name] = m.Value
+	}
+	return out
+}
+
+// c03Conformance: every value of the root type that passes the generated Validate() must encode to
+// JSON that is valid against the source schema (decided by the reference validator).
+func c03Conformance(r *ev.Run, pkg *Package, spec *C03Spec, fam *C03Family, values, idx int) {
+	t := pkg.Type(fam.Root)
+	if t == nil {
+		r.Count("conformance_root_type_not_found", 1)
+		return
+	}
+	enc, _, ok := jsonCodec(t)
+	if !ok {
+		r.Count("conformance_root_without_codec", 1)
+		return
+	}
+	comps := parseComps(fam.All)
+	relaxed := parseComps(fam.AllRelaxed)
+	root := comps[fam.Root]
+	if root == nil {
+		return
+	}
+	res, rres := schemaref.MapResolver(comps), schemaref.MapResolver(relaxed)
+	rng := r.Rand("c04conf", spec.Key, fam.Root)
+	built := 0
+	for k := 0; k < values; k++ {
+		b := &Builder{Pkg: pkg, Rng: rng, Hostile: k%2 == 1, MaxDepth: 3 + k%3}
+		v, ok := b.Validated(t, 10)
+		if !ok {
+			r.Count("values_rejected_by_own_validate", 1)
+			continue
+		}
+		text, pan := encodeJSON(enc, v)
+		if pan != "" {
+			r.Violate("json/encode-panic", fmt.Sprintf("schema-known type %s: Encode panicked: %s", fam.Root, pan), map[string]any{"schema": clipS(fam.Schema, 4000)})
+			continue
+		}
+		inst, err := jsonv.Parse(text)
+		if err != nil {
+			r.Violate("json/malformed-output", fmt.Sprintf("schema-known type %s: Encode wrote malformed JSON: %v", fam.Root, err), map[string]any{"json": clip(text)})
+			continue
+		}
+		built++
+		r.Eval(1)
+		r.Distinct("conf|" + spec.Key + fam.Root + "|" + string(text))
+		if !schemaref.Decidable(root, inst, res) {
+			// includes numbers whose shortest decimal text is not the exact binary64 value: the generated
+			// validator works on the float, the reference on the text
+			r.Count("conformance_outside_deciding_domain", 1)
+			continue
+		}
+		okv, why := schemaref.Validate(root, inst, res)
+		if okv {
+			r.Count("conformance_encodings_valid", 1)
+			if idx%50 == 0 && k == 0 {
+				r.Sample(map[string]any{"schema": clipS(fam.Schema, 600), "validated_go_value_encodes_to": clip(text), "reference": "valid"})
+			}
+			continue
+		}
+		wit := map[string]any{"schema": clipS(fam.Schema, 20000), "components": clipS(fam.Comps, 20000), "go_value": Descr(SnapValue(v)), "encoding": clip(text), "reference_reason": why}
+		// name the two known gaps by re-validating against schemas with exactly that keyword relaxed
+		validUnder := func(txt string) bool {
+			c := parseComps(txt)
+			if c[fam.Root] == nil {
+				return false
+			}
+			ok2, _ := schemaref.Validate(c[fam.Root], inst, schemaref.MapResolver(c))
+			return ok2
+		}
+		_ = rres
+		switch {
+		case validUnder(fam.AllRelaxed):
+			r.Violate("json/conformance-required-undeclared-property", fmt.Sprintf("a value that passes Validate() encodes to JSON lacking a required member that is not declared under properties: %s (%s)", clip(text), why), wit)
+		case validUnder(fam.AllNoCount), validUnder(fam.AllBoth):
+			r.Violate("json/property-count-enforced-by-decode-not-by-validate", fmt.Sprintf("a value that passes Validate() encodes to JSON violating a minProperties/maxProperties of the schema: %s (%s)", clip(text), why), wit)
+		default:
+			r.Violate("json/encoding-violates-schema:"+whyClass(why), fmt.Sprintf("a value of %s that passes its own Validate() encodes to JSON that is invalid against the source schema: %s ; reference: %s", fam.Root, clip(text), why), wit)
+		}
+	}
+	if built > 0 {
+		r.Count("conformance_types_exercised", 1)
+	}
+}
+
+func whyClass(why string) string {
+	for _, k := range []string{"required", "minimum", "maximum", "multipleOf", "minLength", "maxLength", "pattern", "minItems", "maxItems", "uniqueItems", "enum", "additionalProperties", "oneOf", "anyOf", "type", "nullable"} {
+		if strings.Contains(why, k) {
+			return k
+		}
+	}
+	return "other"
 }
